@@ -7,7 +7,7 @@ import numpy as np
 
 from symx.runner import Family, arr, increasing, run_check
 from symx.core import Sym
-from checks.rfafam import ALL6, shape_configs, large_configs, inputs, make, num
+from checks.rfafam import ALL6, shape_configs, large_configs, typed_configs, inputs, make, num
 
 
 class Grid(Family):
@@ -17,11 +17,11 @@ class Grid(Family):
 
     def configs(self, tier):
         if tier == "quick":
-            return shape_configs(tier, ALL6, sym_x_max_m=3, max_m=4, ns=(2, 3, 4), adaptive_max_m=4) + large_configs(tier, ALL6)
-        return shape_configs(tier, ALL6, sym_x_max_m=4, max_m=6, ns=(2, 3, 4, 6), adaptive_max_m=5) + large_configs(tier, ALL6)
+            return shape_configs(tier, ALL6, sym_x_max_m=3, max_m=4, ns=(2, 3, 4), adaptive_max_m=4) + large_configs(tier, ALL6) + typed_configs(ALL6)
+        return shape_configs(tier, ALL6, sym_x_max_m=4, max_m=6, ns=(2, 3, 4, 6), adaptive_max_m=5) + large_configs(tier, ALL6) + typed_configs(ALL6)
 
-    def run(self, ctx, inst, strategy, m, n, grid, p):
-        x, y, X, ys = inputs(ctx, m, grid)
+    def run(self, ctx, inst, strategy, m, n, grid, p, typed=None):
+        x, y, X, ys = inputs(ctx, m, grid, typed)
         xs, zs = make(ctx, strategy, x, y, n, p).rfa()
         ctx.note("xs", xs)
         info = {"strategy": strategy}
